@@ -1,4 +1,5 @@
 import ObiVerif.Model.PEAlign
+import ObiVerif.Model.PEFillV
 import ObiVerif.Driver.Util
 /-! line protocol for C08 (see `harness/c08.go` for the case-line grammar) -/
 namespace ObiVerif.Driver.C08
@@ -81,6 +82,30 @@ def voteStr (st : Settings) : Vote × String :=
     (v, s!"fc={v.count} ov={over st.a.length st.b.length v.shift} fs={fs}")
   else (⟨0, 0, -1, 1⟩, "fc=-1 ov=0 fs=-1")
 
+/-- an arena as a previous pair may have left it: wrong sizes, stale values -/
+def junkArena (la lb : Nat) : Mats :=
+  ⟨Array.replicate 7 7777, Array.replicate ((la + 1) * (lb + 1) + 5) (-7777)⟩
+
+def csv (a : Array Int) : String := ",".intercalate (a.toList.map toString)
+
+/-- op `fm`: one verbatim fill + backtracking; prints the score, the path and both flat matrices -/
+def runFm (ws extra : List String) : String :=
+  match ws, extra with
+  | [side, _gi, _si, a, qa, b, qb], g :: sc =>
+    match side.toNat?, unhex a, unhex qa, unhex b, unhex qb, g.toInt?, ints? sc with
+    | some side, some a, some qa, some b, some qb, some g, some scl =>
+      let la := a.length
+      let lb := b.length
+      if la = 0 ∨ lb = 0 ∨ qa.length ≠ la ∨ qb.length ≠ lb ∨ scl.length ≠ la * lb ∨ side > 1 then "bad-op" else
+      let arr := scl.toArray
+      let s := fun i j => arr.getD (i * lb + j) 0
+      let r := if side = 1 then fillLeftA s g la lb (junkArena la lb) else fillRightA s g la lb (junkArena la lb)
+      match r with
+      | some (fr, m) => s!"sc={fr.score} p={pathStr fr.path} M={csv m.sm} P={csv m.pm}"
+      | none => "panic"
+    | _, _, _, _, _, _, _ => "bad-op"
+  | _, _ => "bad-op"
+
 def runPe (ws extra : List String) : String :=
   match parseSettings ws, extra with
   | some st, g :: adjh :: sc =>
@@ -92,7 +117,10 @@ def runPe (ws extra : List String) : String :=
       let arr := scl.toArray
       let s := fun i j => arr.getD (i * lb + j) 0
       let (v, vs) := voteStr st
-      let r := if st.fast then peAlignFastFrom s g la lb st.delta v.shift v.count else peAlignExact s g la lb
+      -- exact mode runs the verbatim loop nests over a flat arena holding stale values of the wrong size
+      -- (`fills_verbatim_refine`: same result as `peAlignExact` for every arena content)
+      let r := if st.fast then peAlignFastFrom s g la lb st.delta v.shift v.count
+               else (peAlignExactA s g la lb (junkArena la lb)).map (·.1)
       match r with
       | some r => s!"L={if r.isLeft then 1 else 0} sc={r.score} p={pathStr r.path} {vs} | {tailStr st (adjFn adjt) r}"
       | none => "panic | panic"
@@ -121,6 +149,7 @@ def run (line : String) : String :=
     match words main with
     | "pe" :: ws => runPe ws (words extra)
     | "pl" :: ws => runPl ws (words extra)
+    | "fm" :: ws => runFm ws (words extra)
     | ["cons", a, qa, b, qb, p] =>
       match unhex a, unhex qa, unhex b, unhex qb, parsePath p, unhex extra.trimAscii.toString with
       | some a, some qa, some b, some qb, some p, some adjt =>
